@@ -28,12 +28,12 @@ func (c07) Rule() string {
 	return "a history of 0..6 runs with every termination kind (return, uncaught error at depth 0/5/100, recovered Go panic, value-stack overflow, frame overflow caught/uncaught, Abort from another goroutine in a loop and in a callback, " +
 		"unrecovered panic into the harness, scripts leaving closures/modules/open handlers/stack residue) is executed on one VM with every transition kind between runs (Clear, SetBytecode same/other, Clear+SetBytecode); " +
 		"then the observed script T is run on the used VM (after SetBytecode or Clear+SetBytecode) and on a brand-new VM: outcomes (value, event log, globals, error name+message, trace) must be equal; T is run twice more (new VM, cleared VM); " +
-		"the encoder bytes of every involved Bytecode must be identical before the first and after the last run. EXHAUSTIVE product 13 termination kinds x 4 transitions x 8 fixed observers, plus seeded random histories with generated observers. " +
+		"the encoder bytes of every involved Bytecode must be identical before the first and after the last run. EXHAUSTIVE product 15 termination kinds x 4 transitions x 11 fixed observers, plus seeded random histories with generated observers. " +
 		"non-trivial = history contains >=1 non-normal termination; distinct by (history kinds, transitions, observer hash)"
 }
 func (c07) Batches(string) int { return 32 }
 func (c07) Required(string) []string {
-	return []string{"histories", "product_cases", "random_histories", "term.abort-loop", "term.abort-callback", "term.host-panic", "term.frame-overflow", "term.stack-overflow", "term.recovered-panic", "term.error-depth100", "bytes_unchanged_checks", "observer_error_outcomes"}
+	return []string{"histories", "product_cases", "random_histories", "term.abort-loop", "term.abort-callback", "term.host-panic", "term.abort-in-nested-try", "term.frame-overflow", "term.stack-overflow", "term.recovered-panic", "term.error-depth100", "bytes_unchanged_checks", "observer_error_outcomes"}
 }
 func (c07) Assumptions() []string {
 	return []string{"map iteration order is never observable in the observed scripts", "re-running WITHOUT Clear/SetBytecode (documented REPL behaviour keeping the module cache) is out of the statement and not compared"}
@@ -59,6 +59,8 @@ var c07terms = []c07term{
 	{"abort-loop", "global (L, STARTED)\nx := [1, 2, 3]\ntry {\n  STARTED()\n  for {\n    x = append(x, 1)[0:3]\n  }\n} finally {\n  L(\"never\")\n}", true, "loop"},
 	{"abort-callback", "global (L, BLOCK)\nf := func() {\n  try {\n    return BLOCK()\n  } finally {\n    L(1)\n  }\n}\nreturn f()", true, "callback"},
 	{"host-panic", "global (L, PANIC)\nf := func() {\n  x := {a: 1}\n  try {\n    return PANIC()\n  } finally {\n    x.a = 2\n  }\n}\nreturn f()", false, ""},
+	{"abort-in-nested-try", "global (L, STARTED)\nspin := func() {\n  STARTED()\n  for {\n  }\n}\nguard := func() {\n  try {\n    return spin()\n  } catch e {\n    return \"guard\"\n  }\n}\nouter := func() {\n  try {\n    return guard()\n  } finally {\n    L(\"never\")\n  }\n}\nreturn outer()", true, "loop"},
+	{"discarded-selfcall-then-throw", "global L\nvar cd\ncd = func(n) {\n  if n == 0 {\n    throw error(\"bottom\")\n  }\n  cd(n - 1)\n}\nreturn cd(3)", true, ""},
 	{"open-handlers-residue", "global L\nf := func(n) {\n  try {\n    try {\n      a := [n, n, n, n]\n      if n > 0 {\n        throw error(\"open\")\n      }\n    } finally {\n      L(\"inner\")\n    }\n  } finally {\n    L(\"outer\")\n  }\n}\nreturn f(1)", true, ""},
 }
 
@@ -73,6 +75,11 @@ var c07observers = []string{
 	"global L\nvar r\nr = func(n) {\n  var loc\n  L(loc)\n  loc = n\n  if n == 0 {\n    return [1][2]\n  }\n  return r(n - 1)\n}\nreturn r(3)",
 	"global (L, G)\nG = G + 1\nvar r\nr = func(n, acc) {\n  if n == 0 {\n    return acc\n  }\n  return r(n - 1, acc + n)\n}\nreturn r(50, G)",
 	"global L\nparam (...rest)\na, b, c := rest\nreturn [a, b, c, len(rest)]",
+	// an error raised (uncaught there) in a function at call depth 1 / 2 / 3 and caught by main: stale per-frame
+	// state of an earlier run (handlers, flags) at those depths must not intercept it
+	"global L\ng := func() {\n  return [1][5]\n}\ntry {\n  g()\n} catch e {\n  L(\"main caught\", e.Name)\n}\nh := func() {\n  return 7\n}\nreturn [h(), h()]",
+	"global L\ng3 := func() {\n  throw error(\"deep\")\n}\ng2 := func() {\n  x := g3()\n  return x\n}\ng1 := func() {\n  x := g2()\n  return x\n}\ntry {\n  g1()\n} catch e {\n  L(\"main caught\", e.Message)\n}\nk := func(a) {\n  return a + 1\n}\nreturn [k(1), k(2)]",
+	"global L\nvar cd\ncd = func(n) {\n  if n == 0 {\n    return \"done\"\n  }\n  cd(n - 1)\n}\nv := func() {\n  return 42\n}\nreturn [cd(0), v(), cd(2), v()]",
 }
 
 const c07mod0 = "global L\nstate := 10\nL(\"mod0-body\")\nreturn {bump: func(d) { state += d; return state }, get: func() { return state }}\n"
